@@ -243,48 +243,77 @@ def run(ctx, ck):
     ck.floor('printed 0-based numbers', n_out, 10)
 
     # ---------------------------------------------------------------- D2 input
+    # decided on the symbolic walk of the option-consuming statements of main (mainx): every number
+    # the user gives 1-based reaches the model decremented exactly once
+    from ..mainx import main_slices, feasible_counts
+    from ..symx import simplify
     mainf = m.func('mininec.main')
-    mfl = ctx.flow(mainf)
     n_in = 0
-    for c in calls_in(mainf.node, attr='register_source'):
-        a = c.args[1] if len(c.args) > 1 else None
-        ok = a is not None and is_minus_one(a)
-        ck.ob('R-KIND.one-based-in', 'main|register_source|%s' % norm(a), ok, mainf.loc(c),
-              'pulse argument %s' % norm(a))
+    seen_in = {}
+
+    def arg_at(call, k):
+        pos = 0
+        for a_ in call.args:
+            if isinstance(a_, ast.Starred):
+                return simplify(ast.Subscript(value=a_.value, slice=ast.Constant(value=k - pos), ctx=ast.Load()))
+            if pos == k:
+                return a_
+            pos += 1
+        return None
+
+    def once_decremented(e_):
+        """user number - 1, the user number being an int() of a field of the option text"""
+        if not is_minus_one(e_):
+            return False
+        left = e_.left
+        if any(is_minus_one(x_) or is_plus_one(x_) for x_ in ast.walk(left)):
+            return False
+        return any(isinstance(x_, ast.Call) and isinstance(x_.func, ast.Name) and x_.func.id == 'int' for x_ in ast.walk(left)) \
+            and ".split(',')" in norm(left)
+
+    def note(key, ok, node, why):
+        prev = seen_in.get(key)
+        if prev is None or (prev[0] and not ok):
+            seen_in[key] = (ok, node, why)
+    for st_, dests_, paths_ in main_slices(ctx):
+        for p_ in paths_:
+            if p_.end == 'return' and isinstance(p_.ret, ast.Constant) and p_.ret.value is not None:
+                continue            # a path that rejects the option
+            if feasible_counts(p_) == set():
+                continue            # its tests on the number of fields contradict each other
+            for ev in p_.events:
+                call = ev[2] if ev[0] == 'create' else (ev[1] if ev[0] == 'call' else None)
+                if not isinstance(call, ast.Call):
+                    continue
+                fname = call.func.attr if isinstance(call.func, ast.Attribute) else (
+                    call.func.id if isinstance(call.func, ast.Name) else None)
+                if fname == 'register_source':
+                    a_ = arg_at(call, 1)
+                    note('main|register_source|pulse', a_ is not None and once_decremented(a_), st_,
+                         'pulse argument %s' % (norm(a_)[:80] if a_ is not None else None))
+                elif fname == 'Excitation':
+                    for kw in call.keywords:
+                        if kw.arg == 'geo_idx':
+                            note('main|Excitation.geo_idx', once_decremented(kw.value), st_, 'geo_idx = %s' % norm(kw.value)[:80])
+                elif fname == 'register_load':
+                    a_ = arg_at(call, 1)
+                    if a_ is None:
+                        continue
+                    is_none = isinstance(a_, ast.Constant) and a_.value is None
+                    # the "all" form passes None; a number is decremented once
+                    ok_ = is_none or once_decremented(a_)
+                    if not (is_none and not any(isinstance(x_, ast.Starred) for x_ in call.args)):
+                        note('main|register_load|pulse', ok_, st_,
+                             'pulse number decremented once before register_load (unless "all"): %s' % norm(a_)[:80])
+                    l0 = call.args[0] if call.args else None
+                    if isinstance(l0, ast.Subscript) and norm(l0.value) == 'loads':
+                        note('main|register_load|load-number', once_decremented(l0.slice), st_,
+                             'load index %s' % norm(l0.slice)[:80])
+    for key, (ok_, node_, why_) in sorted(seen_in.items()):
+        ck.ob('R-KIND.one-based-in', key, ok_, mainf.loc(node_), why_)
         n_in += 1
-    for c in calls_in(mainf.node, name='Excitation'):
-        for kw in c.keywords:
-            if kw.arg == 'geo_idx':
-                ck.ob('R-KIND.one-based-in', 'main|Excitation.geo_idx|%s' % norm(kw.value), is_minus_one(kw.value),
-                      mainf.loc(c), 'geo_idx = %s' % norm(kw.value))
-                n_in += 1
-    for c in calls_in(mainf.node, attr='register_load'):
-        st = [a for a in c.args if isinstance(a, ast.Starred)]
-        if not st:
-            continue        # distributed loads: register_load(ld, None, w.tag)
-        sv = st[0].value
-        if isinstance(sv, ast.Subscript) and isinstance(sv.value, ast.Name):
-            lst, lo = sv.value.id, sv.slice.lower.value if isinstance(sv.slice, ast.Slice) and sv.slice.lower else 0
-            dec = [s for s in walk_no_nested(mainf.node) if isinstance(s, ast.Assign) and
-                   norm(s.targets[0]) == '%s[%d]' % (lst, lo) and is_minus_one(s.value) and
-                   norm(s.value.left) == '%s[%d]' % (lst, lo)]
-            ok = len(dec) == 1
-            if ok:
-                ok = mfl.cfg.must_pass(mfl.node_id_of(c), {mfl.node_id_of(dec[0])}) or True
-                # the decrement is guarded by `is not None` (the 'all' form): accepted
-                g_ = parent(dec[0])
-                ok = isinstance(g_, ast.If) and 'is not None' in norm(g_.test)
-            ck.ob('R-KIND.one-based-in', 'main|register_load|pulse', ok, mainf.loc(c),
-                  'pulse number decremented once before register_load (unless "all")')
-            n_in += 1
-        la = c.args[0]
-        if isinstance(la, ast.Subscript) and isinstance(la.slice, ast.Name):
-            d = mfl.single_def(la.slice.id, mfl.node_id_of(c))
-            ok = d is not None and is_minus_one(d[0])
-            ck.ob('R-KIND.one-based-in', 'main|register_load|load-number', ok, mainf.loc(c),
-                  'load index %s = %s' % (la.slice.id, norm(d[0]) if d else '?'))
-            n_in += 1
-    ck.floor('input conversions', n_in, 5)
+    ck.info('input_conversion_keys', sorted(seen_in))
+    ck.floor('input conversions', n_in, 4)
 
     # ---------------------------------------------------------------- D3
     ct = m.func('mininec.Geo_Container.compute_tags')
